@@ -48,8 +48,33 @@ def run(ctx):
         if not m2:
             raise vlib.Infra("binding self-test: corrupted key storage trace accepted")
         break
+    race(ctx, binary, quick)
     ctx.assumptions += ["single adversarial edit per API-produced storage (the property's quantifier); PGP (gopenpgp) is trusted",
                         "three slot ids, three freshly generated x25519 key pairs per run"]
+
+
+def race(ctx, binary, quick):
+    """calls released at the same time on one KeyStorage (real threads): two additions of the same new slot with different key
+    pairs, commuting calls next to them, then a sequential epilogue; judged by the unchanged TraceKeyStorage (the group is
+    written successes first: the only order a sequential execution of mutually exclusive calls can have had)."""
+    out = os.path.join(ctx.scratch, "ksrace.ndjson")
+    rounds = 30 if quick else 600
+    vlib.go_run(ctx, binary, "TestKeyStorageRace", {"VERIF_OUT": out, "VERIF_ROUNDS": rounds}, timeout=3000)
+    recs = vlib.read_ndjson(out)
+    traces = vlib.split_traces(recs)
+    mism, consumed, r = vlib.validate(ctx, "TraceKeyStorage", "TraceKeyStorage.cfg", out, timeout=3000, name="val-race")
+    if consumed != len(recs):
+        raise vlib.Infra("TraceKeyStorage (race) consumed %s of %d\n%s" % (consumed, len(recs), r.out[-2500:]))
+    details = [x for x in r.out.splitlines() if x.startswith('<<"DETAIL"')]
+    ctx.cov["traces_validated_against_impl"] += len(traces)
+    ctx.cov["concurrent_call_groups"] = len(traces)
+    ctx.cov["contested_slot_won_by"] = {str(kp): len([1 for _, t in traces if any(x.get("op") == "add" and x["s"] == 2 and x["kp"] == kp and x["ok"] for x in t)]) for kp in (2, 3)}
+    for i, line in enumerate(mism):
+        m = re.match(r'<<"MISMATCH", "([^"]*)", (\d+), "([^"]*)">>', line)
+        tid, lno, what = m.group(1), int(m.group(2)), m.group(3)
+        t = [t for t in traces if t[0] == tid][0][1]
+        ctx.violation("concurrent/%s/%s" % (what, recs[lno - 1]["op"]), "calls made at the same time: %s at line %d: %s" % (what, lno, (details[i] if i < len(details) else "")[:700]),
+                      {"tid": tid, "line": lno, "trace": t})
 
 
 if __name__ == "__main__":
